@@ -41,7 +41,9 @@ where
         sim.add_time_ns(t0.elapsed().as_nanos() as u64);
         r.ok()
     });
-    // dropping the runtime drops every task (server, connections)
+    // dropping the runtime drops every task (server, connections); the order in which tokio drops
+    // them depends on process-global task ids, so it is not recorded
+    sim.freeze();
     drop(rt);
     out
 }
